@@ -129,7 +129,8 @@ Proof.
   split; [exact f1|]. split; [exact f2|]. split; [exact f3|]. split; [exact NR|]. split.
   - intros p' bk' H' Ne.
     destruct (live_blocks_disjoint_all_histories C B A CF uc beg ops L Beg Man p p' bk bk' H H' (not_eq_sym Ne)) as (_ & _ & _ & _ & D). exact D.
-  - intros b' q len NR' Hin. apply (block_vs_meta C B A beg bk b' q len L); auto.
+  - intros b' q len NR' Hin.
+    exact (block_vs_meta C B A beg bk b' q len L (Beg _) (Beg _) R (fun Nb => Man _ _ Nb NR NR') Hin).
 Qed.
 
 (* (4) the signed 8-bit indexes: for blockCount <= 127 every block index firstBlockIndex + j of a buffer (and hence every
@@ -188,7 +189,8 @@ Proof.
   - intros p' bk' H' Ne. destruct (Fact p' bk' H') as (R' & NR').
     destruct (blocks_disjoint C B A beg bk bk' L (Beg _) (Beg _) R R' (not_eq_sym Ne)) as (_ & _ & _ & D); [|exact D].
     intros Nb. apply Man; assumption.
-  - intros b' q len NR' Hin. apply (block_vs_meta C B A beg bk b' q len L); auto.
+  - intros b' q len NR' Hin.
+    exact (block_vs_meta C B A beg bk b' q len L (Beg _) (Beg _) R (fun Nb => Man _ _ Nb NR NR') Hin).
 Qed.
 
 (* (3') END TO END over the FULL alphabet: Allocate, Deallocate, MergeFrom, DeallocateAll, Swap, move assignment and DeallocateIf *)
